@@ -295,7 +295,12 @@ func (fr *frame) visit(instr ssa.Instruction) bool {
 	switch instr := instr.(type) {
 	case *ssa.DebugRef:
 	case *ssa.UnOp:
-		fr.locals[instr] = ex.unop(instr, fr.get(instr.X))
+		x := fr.get(instr.X)
+		if se, ok := x.(symElemPtr); ok {
+			fr.locals[instr] = ex.loadSymElem(se)
+			break
+		}
+		fr.locals[instr] = ex.unop(instr, x)
 	case *ssa.BinOp:
 		fr.locals[instr] = ex.binop(instr.Op, instr.X.Type(), fr.get(instr.X), fr.get(instr.Y))
 	case *ssa.Call:
@@ -420,7 +425,14 @@ func (fr *frame) visit(instr ssa.Instruction) bool {
 	case *ssa.Field:
 		fr.locals[instr] = copyVal(fr.get(instr.X).(Struct)[instr.Field])
 	case *ssa.IndexAddr:
-		fr.locals[instr] = ex.indexAddr(fr.get(instr.X), fr.get(instr.Index).(*Term), instr.Index.Type())
+		idx := fr.get(instr.Index).(*Term)
+		if !idx.IsConst() && onlyLoaded(instr) {
+			if se, ok := ex.symElem(fr.get(instr.X), idx, instr.Index.Type()); ok {
+				fr.locals[instr] = se
+				break
+			}
+		}
+		fr.locals[instr] = ex.indexAddr(fr.get(instr.X), idx, instr.Index.Type())
 	case *ssa.Index:
 		fr.locals[instr] = ex.indexOp(fr.get(instr.X), fr.get(instr.Index).(*Term), instr.Index.Type())
 	case *ssa.Lookup:
@@ -819,4 +831,82 @@ func (it *iter) next(ex *Exec) Value {
 		return Tuple{tc.True, tc.BV(uint64(idx), 64), tc.ZExt(b, 32)}
 	}
 	panic("bad iter")
+}
+
+// symElemPtr is the address of a slice/array element at a symbolic index, produced only when every
+// use of the address is a load; the load becomes an ite over the elements (no fork).
+type symElemPtr struct {
+	a   []Value
+	idx *Term
+}
+
+func onlyLoaded(instr *ssa.IndexAddr) bool {
+	refs := instr.Referrers()
+	if refs == nil || len(*refs) == 0 {
+		return false
+	}
+	for _, r := range *refs {
+		switch r := r.(type) {
+		case *ssa.UnOp:
+			if r.Op != token.MUL {
+				return false
+			}
+		case *ssa.DebugRef:
+		default:
+			return false
+		}
+	}
+	return true
+}
+
+func (ex *Exec) symElem(x Value, idx *Term, it types.Type) (symElemPtr, bool) {
+	tc := ex.tc
+	idx = ex.idx64(idx, it)
+	var a []Value
+	var n *Term
+	switch xv := x.(type) {
+	case Slice:
+		a, n = xv.a, xv.n
+	case *Value:
+		if xv == nil {
+			return symElemPtr{}, false
+		}
+		arr := (*xv).(Array)
+		a, n = []Value(arr), tc.BV(uint64(len(arr)), 64)
+	default:
+		return symElemPtr{}, false
+	}
+	if len(a) == 0 || len(a) > 1024 {
+		return symElemPtr{}, false
+	}
+	for _, e := range a {
+		if _, ok := e.(*Term); !ok {
+			return symElemPtr{}, false
+		}
+	}
+	ex.boundsCheck(idx, n, "index")
+	return symElemPtr{a: a, idx: idx}, true
+}
+
+func (ex *Exec) loadSymElem(se symElemPtr) Value {
+	tc := ex.tc
+	// default = most common element, then one ite per differing element
+	count := map[*Term]int{}
+	var def *Term
+	for _, e := range se.a {
+		t := e.(*Term)
+		count[t]++
+		if def == nil || count[t] > count[def] {
+			def = t
+		}
+	}
+	r := def
+	for i := len(se.a) - 1; i >= 0; i-- {
+		t := se.a[i].(*Term)
+		if t == def {
+			continue
+		}
+		r = tc.Ite(tc.Eq(se.idx, tc.BV(uint64(i), 64)), t, r)
+	}
+	return r
 }
